@@ -166,7 +166,7 @@ _p('C09', ['R6', 'R37', 'R12', 'R45', 'R8d', 'R8e', 'R23lex', 'R73', 'R77', 'R76
    'survives an empty sequence. R12: the model is forwarded. R45: metadata is written in the form the comment scanner reads back.',
    'Equality of the decoded graphs across containers for every text is not decided; file iteration semantics of CPython are trusted.',
    'Exact language decision and call-shape facts; necessary conditions.', [TRUST_RE, T_CG, 'text-mode file iteration splits at LF, CRLF, CR (universal newlines)'])
-_p('C10', ['R11', 'R30', 'R31', 'R52', 'R70', 'R58'],
+_p('C10', ['R11', 'R30', 'R31', 'R52', 'R70', 'R58', 'R78'],
    'typed lookup lint; loop-shape path checks; may-analysis of freshness',
    'R30: _map_vars yields exactly one output branch per input branch, passes roles through, rewrites a target only by recursion '
    'into nested nodes or by the variable map on non-concept atoms, keeps the alignment suffix, and returns the output list (never '
@@ -175,7 +175,7 @@ _p('C10', ['R11', 'R30', 'R31', 'R52', 'R70', 'R58'],
    'test against the used names and is recorded before the next search (bijection).',
    'That interpretation commutes with the renaming is not decided.',
    'CFG path facts on three functions; necessary conditions.', [T_CFG, T_TY])
-_p('C11', ['R31', 'R3', 'R38', 'R33', 'R36', 'R44', 'R62', 'R63', 'R15', 'R2', 'R66', 'R32', 'R65', 'R14', 'R64', 'R29', 'R28', 'R73', 'R75'],
+_p('C11', ['R31', 'R3', 'R38', 'R33', 'R36', 'R44', 'R62', 'R63', 'R15', 'R2', 'R66', 'R32', 'R65', 'R14', 'R64', 'R29', 'R28', 'R73', 'R75', 'R78'],
    'may-analysis of freshness; constructor-argument lint; closed-world listing of what flows into a set; control-dependence facts',
    'R31: reify_edges / Model.reify accept a new variable only after testing it against the variables in use. R3: transformed '
    'graphs are built with the argument\'s top. R38: a node enters the dereification agenda only if it is not in the fixed set, '
@@ -185,7 +185,7 @@ _p('C11', ['R31', 'R3', 'R38', 'R33', 'R36', 'R44', 'R62', 'R63', 'R15', 'R2', '
    'after a non-matching entry. R36/R44: the layout diagnostics reify_edges relies on.',
    'That dereify(reify(g)) equals g down to the text is not decided.',
    'Dataflow and path facts; necessary conditions.', [T_CFG, T_CG])
-_p('C12', ['R2', 'R3', 'R31', 'R14', 'R53', 'R24', 'R33', 'R63', 'R65', 'R66', 'R32', 'R15', 'R38', 'R50', 'R36', 'R44', 'R67', 'R4', 'R62', 'R73', 'R74'],
+_p('C12', ['R2', 'R3', 'R31', 'R14', 'R53', 'R24', 'R33', 'R63', 'R65', 'R66', 'R32', 'R15', 'R38', 'R50', 'R36', 'R44', 'R67', 'R4', 'R62', 'R73', 'R74', 'R78'],
    'typed partial-map access lint with dominating guards; pipeline order on CFG paths; selection-predicate equivalence',
    'R2: Graph.epidata is treated as a partial map everywhere (every keyed read is guarded, uses .get, or is total by '
    'construction; defect F9). R3: every transformation passes top= (defect F12). R53: configure drops superfluous POPs before '
@@ -254,7 +254,7 @@ _p('C19', ['R10', 'R9', 'R41', 'R16', 'R56', 'R37', 'R18', 'R59', 'R8d', 'R8e', 
    'raised, no StopIteration escapes. R8d/R8e: the token classes of TRIPLE_RE are the documented ones.',
    'Equality of the parsed list with the written list for all symbol/string contents is not decided.',
    'Reaching-definition and language facts; necessary conditions.', [TRUST_RE, T_CFG])
-_p('C20', ['R24', 'R25', 'R12', 'R42', 'R7', 'R13', 'R20', 'R31', 'R38', 'R2', 'R53', 'R71', 'R72', 'R37', 'R56', 'R45', 'R47', 'R27', 'R26', 'R52', 'R33', 'R3', 'R14', 'R41', 'R10', 'R73', 'R74', 'R24m', 'R77', 'R76'],
+_p('C20', ['R24', 'R25', 'R12', 'R42', 'R7', 'R13', 'R20', 'R31', 'R38', 'R2', 'R53', 'R71', 'R72', 'R37', 'R56', 'R45', 'R47', 'R27', 'R26', 'R52', 'R33', 'R3', 'R14', 'R41', 'R10', 'R73', 'R74', 'R24m', 'R77', 'R76', 'R78'],
    'CFG order of pipeline calls with interprocedural summaries; guard facts per option; argument threading',
    'R24: on every path through process/_process_in/_process_out the operations occur in the documented order (spec/pipeline.json). '
    'R25: every documented option is defined, feeds its own entry of the option dicts, and guards exactly its own operation. '
